@@ -153,6 +153,9 @@ def run(prop, tier, seed):
     cases.append((2, 1, [4], [b"ab"], [b"", b"q"], True))  # "" then another new string
     cases.append((2, 2, [6, 9], [b"Marine", b"x"], [b"rine"], True))
     cases.append((2, 3, [8, 11, 8], [b"xMarine"], [b"Marine", b"rine"], True))  # interior offset holds "rine"
+    cases.append((2, 2, [6, 10], [b"abc", b""], [b"x"], True))      # the string data ends in an empty string an id points at
+    cases.append((2, 3, [8, 12, 13], [b"abc", b"", b""], [b"x", b"yy"], True))
+    cases.append((4, 2, [12, 16], [b"abc", b""], [b"x"], True))
     for i in range(N):
         w = rng.choice([2, 4])
         wf = rng.random() < 0.8
@@ -184,6 +187,17 @@ def run(prop, tier, seed):
         if not wf:
             continue
         oracle(out, line, w, strs, req, before, sec2, r, tc, add, sreq)
+        # the same table as a MAP holds it — bytes, read by the section transcoder — then the same call: what the ids
+        # resolve to is judged on the bytes, so it must not matter how the decoder chose to cut the string data up
+        if before is not None:
+            try:
+                secb = tc.decode(before)
+                sec2b = add(sreq, secb)
+                rb_ = "OK " + dump(w, sec2b, tc)
+            except Exception as ex:  # noqa: BLE001
+                sec2b, rb_ = None, "ERR " + err_class(ex)
+            out.count("bytes-path:" + rb_.split(" ")[0])
+            oracle(out, line + "  [table decoded from its bytes]", w, strs, req, before, sec2b, rb_, tc, None, sreq)
         # the same call through an editor object that has served other tables before: an editor keeps
         # no memory of earlier tables, so the oracle holds for its answer too
         try:
